@@ -27,6 +27,17 @@ CHECKS["C19"] = dict(
     design_ref="DESIGN.md#c19",
 )
 
+CHECKS["C04"] = dict(
+    category="exploration",
+    text="Generated (document, response) pairs - response maps over exact codes, NXX ranges and default, several media types "
+    "with different schemas, $ref'd responses/schemas/headers, nullable, writeOnly, OpenAPI 2.0/3.0/3.1 - are judged by the four "
+    "real conformance checks through case.validate_response; each verdict is compared in both directions with an independent "
+    "reading of the document that abstains where the specification leaves the verdict open.",
+    note="Responses are synthesised Response objects; jsonschema is trusted as validator engine; formats are not judged.",
+    technique="runtime monitoring: differential oracle (reference conformance model) over generated documents and responses",
+    design_ref="DESIGN.md#c04",
+)
+
 NOT_APPLICABLE = {}
 
 
